@@ -145,8 +145,21 @@ def tolerance_arg(tol):
     return '%s%%' % repr(100.0 * n / d)
 
 
-def grader_kwargs(aut, cfg, pos):
-    """(kwargs for SumGrader except sample_from, scripts)"""
+def py_fact(x):
+    """fact() as an author-defined function: the built-in one needs scipy, which is absent here.  The name 'fact' in
+    a summand is what makes SumGrader choose infty_val_fact, whoever defines the function."""
+    import math
+    if x != int(x) or x < 0:
+        raise ValueError('factorial of %r' % (x,))
+    return float(math.factorial(int(x)))
+
+
+def uses_fact(*sums):
+    return any(t['base'] == 'invfact' for s in sums for terms in s['body']['comps'] for t in terms)
+
+
+def grader_kwargs(aut, cfg, pos, stu=None):
+    """(kwargs for SumGrader except sample_from / user functions, scripts)"""
     kw = dict(answers=sum_text(aut), input_positions={f: i + 1 for i, f in enumerate(pos)}, even_odd=cfg['evenOdd'],
               infty_val=cfg['cut'], infty_val_fact=cfg['cutFact'], variables=sorted(cfg['vars']) + sorted(cfg['ivars']),
               instructor_vars=sorted(cfg['ivars']), samples=len(cfg['xs']))
@@ -154,6 +167,8 @@ def grader_kwargs(aut, cfg, pos):
     if t is not None:
         kw['tolerance'] = t
     scripts = {'x': [float(Fraction(n, d)) for n, d in cfg['xs']], 'c': [float(Fraction(*cfg['cval']))]}
+    if uses_fact(aut, *([stu] if stu else [])):
+        kw['user_fact'] = True
     return kw, scripts
 
 
@@ -180,6 +195,10 @@ def call_grader(kw, scripts, inputs):
     from mitxgraders import SumGrader
     from engine.fixtures import ScriptedSampler
 
+    kw = dict(kw)
+    if kw.pop('user_fact', False):
+        kw.update(user_functions={'fact': py_fact}, suppress_warnings=True)
+
     def run():
         g = SumGrader(sample_from={k: ScriptedSampler(script=v) for k, v in scripts.items() if k in kw['variables']}, **kw)
         return g(None, inputs)
@@ -187,7 +206,7 @@ def call_grader(kw, scripts, inputs):
 
 
 def observe(aut, stu, cfg, pos, single_as_string=False):
-    kw, scripts = grader_kwargs(aut, cfg, pos)
+    kw, scripts = grader_kwargs(aut, cfg, pos, stu)
     st = sum_text(stu)
     inputs = [st[f] for f in pos]
     if single_as_string and len(inputs) == 1:
@@ -216,7 +235,7 @@ def make_signature(aut, stu, cfg, pos, allowed, observed, detail, kw, scripts, i
     return {'origin': origin, 'answers': kw['answers'], 'input_positions': kw['input_positions'], 'inputs': inputs,
             'even_odd': kw['even_odd'], 'infty_val': kw['infty_val'], 'infty_val_fact': kw['infty_val_fact'],
             'variables': kw['variables'], 'instructor_vars': kw['instructor_vars'], 'samples': kw['samples'],
-            'tolerance': kw.get('tolerance', 'default'), 'scripts': scripts, 'allowed': sorted(allowed),
+            'tolerance': kw.get('tolerance', 'default'), 'user_fact': kw.get('user_fact', False), 'scripts': scripts, 'allowed': sorted(allowed),
             'observed': observed, 'detail': detail, 'class': finding_class(aut, allowed, observed)}
 
 
@@ -424,7 +443,7 @@ def rand_case(rng, i):
         sl, su = move(neg(u), k), move(neg(l), k)
     if rng.random() < .4:
         sl, su = su, sl
-    if rng.random() < .4:
+    if rng.random() < .3:
         svar = rng.choice(VALID_NAMES)
         sb['v'] = svar
     if rng.random() < .1:
@@ -482,8 +501,14 @@ def rand_case(rng, i):
         aut['body'] = dict(body, v='q')
     elif r < .07:
         aut['body'] = dict(body, blank=True)
+    elif r < .078:
+        aut[rng.choice(['lower', 'upper'])] = {'k': 'blank', 'n': 0}
     # ---- boxes
     P = [f for f in FIELDS if rng.random() < .75]
+    if svar != var and rng.random() < .8:           # a renamed variable mostly comes with both boxes or with neither
+        P = [f for f in P if f not in ('summand', 'summation_variable')]
+        if rng.random() < .8:
+            P += ['summand', 'summation_variable']
     rng.shuffle(P)
     return {'id': i, 'aut': aut, 'stu': stu, 'cfg': cfg, 'pos': P}
 
@@ -582,7 +607,7 @@ def run(ctx):
     for i, allowed in rej.items():
         r = byid[i]
         obs, detail, kw, scripts, inputs = r['obs'], r['_detail'], None, None, None
-        kw, scripts = grader_kwargs(r['aut'], r['cfg'], r['pos'])
+        kw, scripts = grader_kwargs(r['aut'], r['cfg'], r['pos'], r['stu'])
         st = sum_text(r['stu'])
         inputs = [st[f] for f in r['pos']]
         report(ctx, make_signature(r['aut'], r['stu'], r['cfg'], r['pos'], sorted(allowed), obs, detail, kw, scripts, inputs,
@@ -615,6 +640,8 @@ def replay(ctx, rec):
               instructor_vars=sig['instructor_vars'], samples=sig['samples'])
     if sig['tolerance'] != 'default':
         kw['tolerance'] = sig['tolerance']
+    if sig.get('user_fact'):
+        kw['user_fact'] = True
     obs, detail = call_grader(kw, sig['scripts'], sig['inputs'])
     print('case:', {k: sig[k] for k in ('answers', 'input_positions', 'inputs', 'even_odd', 'tolerance')})
     print('allowed by the specification: %s; observed now: %s %s' % (sig['allowed'], obs, detail))
